@@ -483,6 +483,7 @@ fn session(_ctx: &Ctx, kernel: &K) -> WorldResult {
         } else {
             std::env::set_var("COLORTERM", colorterm);
         }
+        k.faults.mangle_reply = false; // window sizes of 2^16 cells are not what this world is about
         k.person.decrqss = true;
         k.person.truecolor = true;
         k.person.kitty = false;
